@@ -953,6 +953,23 @@ pub mod verif_inthread {
         out
     }
 
+    /// The real (crate-private) `join_all`, nameable: what `handle_cmd(Stop)` awaits when graceful.
+    pub struct JoinAllFut<T>(crate::join_all::JoinAll<T>);
+
+    impl<T> Future for JoinAllFut<T> {
+        type Output = Vec<T>;
+
+        fn poll(mut self: Pin<&mut Self>, cx: &mut Context<'_>) -> Poll<Vec<T>> {
+            Pin::new(&mut self.0).poll(cx)
+        }
+    }
+
+    pub fn join_all_boxed<T: 'static>(
+        futs: Vec<futures_core::future::BoxFuture<'static, T>>,
+    ) -> JoinAllFut<T> {
+        JoinAllFut(crate::join_all::join_all(futs))
+    }
+
     // read-only views (diagnostics)
     impl WorkerFut {
         pub fn raw_counter(&self) -> usize {
